@@ -48,7 +48,9 @@ func newEndpoint
 func topology.Update
   props C20
   requires TopoInv(t)
-  modifies t.primary, t.endpoints, t.cIndex
+  modifies t.primary, t.endpoints, t.cIndex, lastUpdatePrimary
+  // (ghost bookkeeping: which node was announced as the primary)
+  assumes lastUpdatePrimary == primaryNode
   ensures C20/inv-established: TopoInv(t)
   ensures C20/leader-is-a-fresh-primary: primaryNode != "" ==> t.primary != nil && fresh(t.primary) && t.primary.nodeType == primary && !t.primary.dead && t.primary.url == primaryNode
   loop 1 modifies nothing
@@ -104,6 +106,16 @@ func topology.NextReadEndpoint
   loop 4 modifies all(endpoint.dead)
   loop 4 invariant TopoInv(t)
 
+// C20, redirects: when a node answers a write with a redirect, the topology the client installs
+// from the redirect body names the ANNOUNCED LEADER as the primary (not the node that answered)
+func newCheckRedirect.$1
+  props C20
+  requires client != nil && ClientOK(client) && req != nil && req.Response != nil && !isnil(req.Response.Body) && req.URL != nil
+  modifies everything, lastUpdatePrimary
+  at topology.Update assert C20/redirect-installs-the-announced-leader: has(shards.Shards, shards.LeaderId) ==> primary == url2(box(shards.URIScheme), box(shards.Shards[shards.LeaderId].HTTPAddr))
+  loop 1 modifies nothing
+  loop 1 invariant C20/leader-seen-means-primary-set: visited(shards.LeaderId) ==> primary == url2(box(shards.URIScheme), box(shards.Shards[shards.LeaderId].HTTPAddr))
+
 // What a server (or whoever answers on its address) returns is arbitrary:
 // no postcondition on the body.
 immutable HTTPClient.topology by NewSimpleHTTPClient, NewHTTPClient, HTTPClient.Close
@@ -129,28 +141,41 @@ func HTTPClient.callAny
 // one request per doReq call; the ghost records whether it went to the primary
 // (ASSUMED: a request and a discovery leave the topology well-formed - discovery changes it
 // through topology.Update only, which is proved to)
+// (reqCount counts the requests that are not GETs: the writes and the proof queries, not the
+// topology discovery)
 func HTTPClient.doReq
   modifies everything, reqCount, lastReqWasPrimary
-  assumes reqCount == old(reqCount) + 1
-  assumes lastReqWasPrimary == (c.topology != nil && endpoint == old(c.topology.primary))
+  assumes method != "GET" ==> reqCount == old(reqCount) + 1 && lastReqWasPrimary == (c.topology != nil && endpoint == old(c.topology.primary))
+  assumes method == "GET" ==> reqCount == old(reqCount) && lastReqWasPrimary == old(lastReqWasPrimary)
   assumes c.topology != nil ==> TopoInv(c.topology)
 
 func HTTPClient.clusterHealthCheck
   modifies everything
-func HTTPClient.discover
-  modifies everything
   assumes c.topology != nil ==> TopoInv(c.topology)
+// discovery installs the ANNOUNCED LEADER as the primary and leaves the topology well-formed
+// (whether it terminates when every node keeps answering with an error is not decided)
+func HTTPClient.discover
+  props C20
+  requires ClientOK(c)
+  modifies everything, reqCount, lastReqWasPrimary, lastUpdatePrimary
+  ensures c.topology != nil ==> TopoInv(c.topology)
+  ensures C20/discovery-sends-no-write: reqCount == old(reqCount) && lastReqWasPrimary == old(lastReqWasPrimary)
+  at topology.Update assert C20/discovery-installs-the-announced-leader: has(shards.Shards, shards.LeaderId) ==> primary == url2(box(shards.URIScheme), box(shards.Shards[shards.LeaderId].HTTPAddr))
+  loop 1 modifies everything, reqCount, lastReqWasPrimary, lastUpdatePrimary
+  loop 1 invariant ClientOK(c) && reqCount == old(reqCount) && lastReqWasPrimary == old(lastReqWasPrimary)
+  loop 2 modifies nothing
+  loop 2 invariant C20/leader-seen-means-primary-set: visited(shards.LeaderId) ==> primary == url2(box(shards.URIScheme), box(shards.Shards[shards.LeaderId].HTTPAddr))
 
 // C20: a write is sent at most once, and only to the endpoint the topology
 // names as primary at that moment; the retry loop runs at most three times
 func HTTPClient.callPrimary
   props C20
-  requires c.topology != nil
+  requires ClientOK(c)
   modifies everything, reqCount, lastReqWasPrimary
   ensures C20/at-most-one-request: reqCount == old(reqCount) || reqCount == old(reqCount) + 1
   ensures C20/writes-go-to-primary: reqCount == old(reqCount) + 1 ==> lastReqWasPrimary
-  loop 1 modifies everything
-  loop 1 invariant reqCount == old(reqCount) && c.topology != nil
+  loop 1 modifies everything, reqCount, lastReqWasPrimary
+  loop 1 invariant reqCount == old(reqCount) && ClientOK(c)
   loop 1 decreases ite(healthRetried, int(0), int(1)) + ite(discoveryRetried, int(0), int(1))
 
 // C20: bounded retries
